@@ -621,11 +621,19 @@ Section Plan.
   Lemma run_instrs_app p1 p2 st : run_instrs c rd s start cal (p1 ++ p2) st = do st' <- run_instrs c rd s start cal p1 st; run_instrs c rd s start cal p2 st'.
   Proof. revert st. induction p1 as [|i r IH]; intros st; cbn [app run_instrs bind]; [reflexivity|]. destruct (run_instr c rd s start cal i st); cbn [bind]; [apply IH|reflexivity]. Qed.
 
-  (* one member as the interpreted loop reads it: at its offset from the start of the structure when it has one, else where the stream is *)
+  (* one member as the interpreted loop reads it: at its offset from the start of the structure when it has one, else where the stream is;
+     a bit field through the bit buffer, any other member with its own reader (after which the bit buffer is empty) *)
   Definition read_member (f : field) (st : pstate) : result pstate :=
     let q := match f_off f with Some fo => start + fo | None => p_pos st end in
-    do x <- rd f s q (p_ctx st);
-    Ok (mkPS (snd x) (p_bb st) ((f_name f, fst x) :: p_vals st) ((f_name f, snd x - q) :: p_sizes st) (int_ctx (f_name f) (fst x) (p_ctx st))).
+    match bits_on f with
+    | Some nb =>
+      do x <- bb_read e s q (p_bb st) (bit_storage (f_ty f)) nb;
+      let '(v, bb', pos') := x in
+      Ok (mkPS pos' bb' ((f_name f, VInt v) :: p_vals st) (p_sizes st) ((f_name f, v) :: p_ctx st))
+    | None =>
+      do x <- rd f s q (p_ctx st);
+      Ok (mkPS (snd x) bb_empty ((f_name f, fst x) :: p_vals st) ((f_name f, snd x - q) :: p_sizes st) (int_ctx (f_name f) (fst x) (p_ctx st)))
+    end.
   Fixpoint seq_loop (fs : list field) (st : pstate) : result pstate :=
     match fs with [] => Ok st | f :: r => do st' <- read_member f st; seq_loop r st' end.
   Definition seq_blockS (B : list field) (st : pstate) : result pstate :=
@@ -638,13 +646,17 @@ Section Plan.
     | TArr _ _ => is_none (ty_size c t)
     | _ => false
     end.
-  Definition cls (f : field) : Prop := f_bits f = None /\ (bmem c (f_ty f) <> None \/ is_sub (f_ty f) = true).
-  (* the offsets the layout wrote back: the running offset while every earlier member has a static size *)
-  Fixpoint offs_run (off : option Z) (fs : list field) : Prop :=
+  (* the layout loop over the fields as the class holds them afterwards: each step gives the field the offset it carries *)
+  Definition lstep (lst : lstate) (f : field) : result (lstate * option Z) :=
+    layout_step false lst None (f_bits f) (bit_storage (f_ty f)) (ty_size c (f_ty f)) (field_align c f).
+  Fixpoint lay_run (lst : lstate) (fs : list field) : Prop :=
     match fs with
     | [] => True
-    | f :: r => f_off f = off /\ offs_run (match off, ty_size c (f_ty f) with Some x, Some n => Some (x + n) | _, _ => None end) r
+    | f :: r => exists lst', lstep lst f = Ok (lst', f_off f) /\ lay_run lst' r
     end.
+  Lemma lstep_plain lst f : f_bits f = None -> lstep lst f =
+    Ok (mkLS (match ls_off lst, ty_size c (f_ty f) with Some o, Some n => Some (o + n) | _, _ => None end) (Z.max (ls_align lst) (field_align c f)) None (Some 0) 0, ls_off lst).
+  Proof. intros Hb. unfold lstep, layout_step. rewrite Hb. destruct (ls_off lst) as [o|]; [destruct (ty_size c (f_ty f))|]; reflexivity. Qed.
 
   Lemma seq_block_app : forall B f q st,
     seq_block c fuel (B ++ [f]) s q st =
@@ -735,186 +747,448 @@ Section Plan.
       destruct (run_instr c rd s start cal i st); cbn [bind]; exact R.
   Qed.
 
-  Lemma read_member_pos f st st' : p_bb st = p_bb st' -> p_vals st = p_vals st' -> p_sizes st = p_sizes st' -> p_ctx st = p_ctx st' ->
+  Lemma bits_on_none f : f_bits f = None -> bits_on f = None.
+  Proof. unfold bits_on. now intros ->. Qed.
+  Lemma read_member_pos f st st' : bits_on f = None -> p_vals st = p_vals st' -> p_sizes st = p_sizes st' -> p_ctx st = p_ctx st' ->
     (f_off f = None -> p_pos st = p_pos st') -> read_member f st = read_member f st'.
-  Proof. intros H1 H2 H3 H4 H5. unfold read_member. rewrite H1, H2, H3, H4. destruct (f_off f); [reflexivity|]. now rewrite H5. Qed.
+  Proof. intros Hb H2 H3 H4 H5. unfold read_member. rewrite Hb, H2, H3, H4. destruct (f_off f); [reflexivity|]. now rewrite H5. Qed.
 
-  Lemma blockS_snoc B f st : inclass c B -> bsize c B <= 9223372036854775807 -> 0 <= p_pos st ->
+  Lemma blockS_snoc B f st : inclass c B -> bsize c B <= 9223372036854775807 -> 0 <= p_pos st -> bits_on f = None -> p_bb st = bb_empty ->
     (forall o, f_off f = Some o -> p_pos st + bsize c B = start + o) ->
     seq_blockS (B ++ [f]) st = do st1 <- seq_blockS B st; read_member f st1.
   Proof.
-    intros Hcl Hbg Hp Ho. unfold seq_blockS. rewrite seq_block_app.
+    intros Hcl Hbg Hp Hbn Hbb Ho. unfold seq_blockS. rewrite seq_block_app.
     destruct (seq_block c fuel B s (p_pos st) st) as [[st1 q1]|] eqn:E; cbn [bind fst snd]; [|reflexivity].
-    pose proof (seq_block_end c fuel B s _ _ _ _ Hp Hcl Hbg E) as Hq. destruct (seq_block_pos B _ _ _ _ E) as [_ Hbb].
-    unfold read_member. cbn [set_pos p_pos p_ctx p_bb p_vals p_sizes].
+    pose proof (seq_block_end c fuel B s _ _ _ _ Hp Hcl Hbg E) as Hq. destruct (seq_block_pos B _ _ _ _ E) as [_ Hbb1].
+    unfold read_member. rewrite Hbn. cbn [set_pos p_pos p_ctx p_bb p_vals p_sizes].
     assert (Hq' : (match f_off f with Some fo => start + fo | None => q1 end) = q1) by (destruct (f_off f) as [o|]; [rewrite <- (Ho o eq_refl); lia|reflexivity]).
-    rewrite Hq'. destruct (rd f s q1 (p_ctx st1)) as [[v p]|]; reflexivity.
+    rewrite Hq'. destruct (rd f s q1 (p_ctx st1)) as [[v p]|]; [|reflexivity]. cbn [bind fst snd]. unfold push, set_pos. cbn [p_bb p_vals p_sizes p_ctx p_pos]. now rewrite Hbb1, Hbb.
   Qed.
+
   (* members handled by their own reader: where they leave the stream, and a size that is not negative *)
   Definition sub_ok (f : field) : Prop :=
     (forall n, ty_size c (f_ty f) = Some n -> 0 <= n) /\
     (forall s' pos ctx v p, 0 <= pos -> read_ty c fuel (f_ty f) s' pos ctx = Ok (v, p) -> 0 <= p).
-  Definition cls' (f : field) : Prop := f_bits f = None /\ (bmem c (f_ty f) <> None \/ (is_sub (f_ty f) = true /\ sub_ok f)).
+  (* bit fields: an integer (or enum) storage type of known size *)
+  Definition bits_ok (f : field) : Prop :=
+    exists nb p al sz, f_bits f = Some nb /\ nb <> 0 /\ bit_storage (f_ty f) = Some (p, al) /\ prim_size p = Some sz /\ p <> PVoid /\
+                       (match f_ty f with TPrim _ _ | TEnum _ _ _ _ => True | _ => False end).
+  Definition cls' (f : field) : Prop :=
+    (f_bits f = None /\ (bmem c (f_ty f) <> None \/ (is_sub (f_ty f) = true /\ sub_ok f))) \/ bits_ok f.
 
   Lemma cend_snoc cur B f : cend cur (B ++ [f]) = option_map (Z.add (msize c (f_ty f))) (cend cur B).
   Proof. unfold cend. now rewrite fold_left_app. Qed.
   Lemma bsize_snoc B f : bsize c (B ++ [f]) = bsize c B + msize c (f_ty f).
   Proof. induction B as [|g r IH]; cbn [app bsize fold_right]; [lia|]. fold (bsize c (r ++ [f])). fold (bsize c r). rewrite IH. lia. Qed.
 
-  Lemma plan_loop : forall fs off gst st P gst' Pf gst'',
-    Forall cls' fs -> offs_run off fs ->
-    g_pbits gst = false ->
-    inclass c (g_block gst) ->
-    contig c (hoff (g_block gst)) (g_block gst) ->
-    (g_block gst <> [] -> cend (hoff (g_block gst)) (g_block gst) = off) ->
-    (forall x, off = Some x -> 0 <= x /\ g_off gst = x /\ (g_block gst <> [] -> g_known gst = true)) ->
-    (g_known gst = true -> p_pos st + bsize c (g_block gst) = start + g_off gst) ->
+  (* what one bit-field read does to the buffer and the stream position *)
+  Lemma bb_read_shape pos bb p al nb v bb' pos' sz : prim_size p = Some sz -> 0 <= pos ->
+    bb_read e s pos bb (Some (p, al)) nb = Ok (v, bb', pos') ->
+    let nu := (bb_rem bb =? 0) || negb (storage_eqb (bb_type bb) (Some (p, al))) in
+    bb_type bb' = (if nu then Some (p, al) else bb_type bb) /\ bb_rem bb' = (if nu then Z.of_nat sz * 8 else bb_rem bb) - nb /\
+    pos' = (if nu then pos + Z.of_nat sz else pos).
+  Proof.
+    intros Hsz Hp H. cbv zeta. unfold bb_read in H. destruct ((bb_rem bb =? 0) || negb (storage_eqb (bb_type bb) (Some (p, al)))).
+    - unfold prim_size_z in H. rewrite Hsz in H. cbn [option_map] in H.
+      destruct (prim_read_at e p s pos) as [[x q]|] eqn:Er; [|discriminate]. cbn [bind fst snd] in H.
+      destruct (value_as_unit (e =? "<")%string x) as [u|]; [|discriminate]. cbn [bind] in H.
+      assert (Hq : q = pos + Z.of_nat sz).
+      { destruct (prim_split e p sz Hsz) as [h Hh]. rewrite (prim_read_at_spec e p sz h Hsz Hh s pos Hp) in Er.
+        destruct (Z.of_nat sz <=? zlen (srest s pos)); [|discriminate]. destruct (h _); [|discriminate]. cbn in Er. now injection Er as _ <-. }
+      cbn [bb_rem bb_type bb_buf] in H. destruct (Z.of_nat sz * 8 <? nb); [discriminate|].
+      destruct (e =? "<")%string; injection H as _ <- <-; cbn [bb_type bb_rem]; auto.
+    - cbn [bind] in H. destruct (bb_rem bb <? nb); [discriminate|]. destruct (e =? "<")%string; injection H as _ <- <-; cbn [bb_type bb_rem]; auto.
+  Qed.
+  Definition clear_bits (st : gstate) : gstate := mkGS (g_off st) (g_block st) false (g_btype st) 0 (g_roll st) (g_known st).
+  (* a member that is not a bit field after a run of bit fields: bit_reader.reset() first, then as if the run had not been *)
+  Lemma plan_step_after_bits f st : g_pbits st = true -> bits_on f = None ->
+    plan_step c false f st = do r <- plan_step c false f (clear_bits st); Ok (IReset :: fst r, snd r).
+  Proof.
+    intros Hpb Hb. destruct st as [go gb gp gt gr gl gk]. cbn [g_pbits] in Hpb. subst gp. unfold clear_bits. cbn [g_off g_block g_pbits g_btype g_brem g_roll g_known].
+    unfold plan_step. rewrite Hb. cbn [andb is_none g_pbits g_off g_block g_btype g_brem g_roll g_known].
+    set (st0 := mkGS go gb false gt 0 gl gk).
+    destruct (negb (supported (unwrap (f_ty f)))); [reflexivity|].
+    destruct (match ty_size c (unwrap (f_ty f)) with Some n => n <? 0 | None => false end); [reflexivity|].
+    match goal with |- bind ?X _ = _ => destruct X as [[ib stb]|] end; reflexivity.
+  Qed.
+
+  Lemma plan_step_bits f st nb p al sz : f_bits f = Some nb -> nb <> 0 -> bit_storage (f_ty f) = Some (p, al) -> prim_size p = Some sz -> p <> PVoid ->
+    (match f_ty f with TPrim _ _ | TEnum _ _ _ _ => True | _ => False end) ->
+    plan_step c false f st =
+      (let new_unit := negb (g_pbits st) || (g_brem st =? 0) || negb (storage_eqb (g_btype st) (Some (p, al))) in
+       let st1 := if new_unit then mkGS (g_off st) (g_block st) (g_pbits st) (Some (p, al)) (Z.of_nat sz * 8) true (g_known st) else st in
+       let st2 := mkGS (g_off st1) (g_block st1) true (g_btype st1) (g_brem st1 - nb) (g_roll st1) (g_known st1) in
+       do fl <- flush c false st2;
+       let '(ia, st3) := align_to_field c false f (snd fl) in
+       Ok (fst fl ++ ia ++ [IBits f nb],
+           if g_roll st3 then mkGS (g_off st3 + Z.of_nat sz) (g_block st3) (g_pbits st3) (g_btype st3) (g_brem st3) false (g_known st3) else st3)).
+  Proof.
+    intros Hb Hnz Hst Hsz Hnv Hshape. unfold plan_step.
+    assert (Hbo : bits_on f = Some nb) by (unfold bits_on; rewrite Hb; destruct (Z.eqb_spec nb 0); [contradiction|reflexivity]).
+    rewrite Hbo. cbn [is_none]. rewrite Bool.andb_false_r.
+    assert (Hft : unwrap (f_ty f) = TPrim p al) by (destruct (f_ty f); try contradiction; cbn in Hst; injection Hst as <- <-; reflexivity).
+    rewrite Hft. cbn [supported ty_size bit_storage].
+    assert (Hsup : (match p with PLeb _ => false | _ => true end) = true) by (destruct p; try reflexivity; discriminate).
+    rewrite Hsup. cbn [negb]. unfold prim_size_z. rewrite Hsz. cbn [option_map]. assert (Z.of_nat sz <? 0 = false) as -> by (apply Z.ltb_ge; lia).
+    cbv zeta. cbn [is_none orb].
+    match goal with |- bind (bind ?X _) _ = bind ?Y _ => change Y with X; destruct X as [[Pb stb]|] end; [|reflexivity]. cbn [bind fst snd].
+    destruct (align_to_field c false f stb) as [ia st3]. cbn [bind fst snd app]. reflexivity.
+  Qed.
+  Lemma prim_eqb_sym p q : prim_eqb p q = prim_eqb q p.
+  Proof.
+    destruct p, q; cbn; try reflexivity.
+    - rewrite (Nat.eqb_sym size size0). destruct signed, signed0, packed, packed0; reflexivity.
+    - apply Nat.eqb_sym.
+    - destruct signed, signed0; reflexivity.
+  Qed.
+  Lemma storage_eqb_sym a b : storage_eqb a b = storage_eqb b a.
+  Proof. destruct a as [[p x]|], b as [[q y]|]; cbn; try reflexivity. now rewrite (Z.eqb_sym x y), (prim_eqb_sym p q). Qed.
+
+  (* what the generator state, the layout state and the reader state know about each other between two members *)
+  Definition inv (gst : gstate) (lst : lstate) (st : pstate) : Prop :=
+    inclass c (g_block gst) /\ contig c (hoff (g_block gst)) (g_block gst) /\
+    (g_block gst <> [] -> cend (hoff (g_block gst)) (g_block gst) = ls_off lst) /\
+    (forall x, ls_off lst = Some x -> 0 <= x /\ g_off gst = x /\ (g_block gst <> [] -> g_known gst = true)) /\
+    (g_known gst = true -> p_pos st + bsize c (g_block gst) = start + g_off gst) /\
+    g_roll gst = false /\
+    (g_pbits gst = false -> ls_brem lst = 0 /\ p_bb st = bb_empty) /\
+    (g_pbits gst = true -> g_block gst = [] /\ ls_brem lst = g_brem gst /\ ls_btype lst = g_btype gst /\ bb_rem (p_bb st) = g_brem gst /\ bb_type (p_bb st) = g_btype gst /\
+       exists bp bal bs, g_btype gst = Some (bp, bal) /\ prim_size bp = Some bs /\ forall x, ls_off lst = Some x -> ls_boff lst = Some (x - Z.of_nat bs)).
+
+  Lemma storage_eqb_eq a b : storage_eqb a b = true -> a = b.
+  Proof.
+    destruct a as [[p x]|], b as [[q y]|]; cbn; intros H; try discriminate; [|reflexivity]. apply andb_prop in H as [Hp Hx]. apply Z.eqb_eq in Hx. now rewrite (prim_eqb_eq _ _ Hp), Hx.
+  Qed.
+  Lemma storage_eqb_refl' a : storage_eqb a a = true.
+  Proof. destruct a as [[p x]|]; cbn; [|reflexivity]. rewrite Z.eqb_refl, andb_true_r. destruct p; cbn; rewrite ?Nat.eqb_refl, ?Bool.eqb_reflx; reflexivity. Qed.
+
+  (* the layout step of a bit field: it opens a unit (and gets the running offset) or continues the open one (and gets none) *)
+  Lemma lstep_bits_new lst f nb p al sz lst' fo : f_bits f = Some nb -> nb <> 0 -> bit_storage (f_ty f) = Some (p, al) -> prim_size p = Some sz ->
+    (ls_brem lst = 0 \/ storage_eqb (Some (p, al)) (ls_btype lst) = false) -> lstep lst f = Ok (lst', fo) ->
+    fo = ls_off lst /\ nb <= Z.of_nat sz * 8 /\
+    lst' = mkLS (match ls_off lst with Some o => Some (o + Z.of_nat sz) | None => None end) (Z.max (ls_align lst) (field_align c f)) (Some (p, al)) (ls_off lst) (Z.of_nat sz * 8 - nb).
+  Proof.
+    intros Hb Hnz Hst Hsz Hnew H. unfold lstep, layout_step in H. rewrite Hb, Hst in H. assert (nb =? 0 = false) as E0 by now apply Z.eqb_neq. rewrite E0 in H.
+    assert (Hnu : (if ls_brem lst =? 0 then Ok true else if negb (storage_eqb (Some (p, al)) (ls_btype lst)) then Ok true else
+                    match ls_btype lst with None => Ok false | Some (bp, _) => match match ls_off lst with Some o => Some o | None => None end with None => Ok false | Some o => match ls_boff lst, prim_size_z bp with Some bo, Some bs => Ok (bo + bs <? o) | _, _ => Err EType end end end) = Ok true).
+    { destruct Hnew as [-> | ->]; [reflexivity|]. destruct (ls_brem lst =? 0); reflexivity. }
+    destruct (ls_off lst) as [o|] eqn:Eo; cbn [bind] in H |- *.
+    - rewrite Hnu in H. cbn [bind] in H. unfold prim_size_z in H. rewrite Hsz in H. cbn [option_map bind ls_brem ls_off ls_align ls_btype ls_boff] in H.
+      destruct (Z.ltb_spec (Z.of_nat sz * 8 - nb) 0); [discriminate|]. injection H as <- <-. repeat split; lia || reflexivity.
+    - rewrite Hnu in H. cbn [bind] in H. unfold prim_size_z in H. rewrite Hsz in H. cbn [option_map bind ls_brem ls_off ls_align ls_btype ls_boff] in H.
+      destruct (Z.ltb_spec (Z.of_nat sz * 8 - nb) 0); [discriminate|]. injection H as <- <-. repeat split; lia || reflexivity.
+  Qed.
+  Lemma lstep_bits_cont lst f nb p al bs lst' fo : f_bits f = Some nb -> nb <> 0 -> bit_storage (f_ty f) = Some (p, al) ->
+    ls_brem lst <> 0 -> ls_btype lst = Some (p, al) -> prim_size p = Some bs -> (forall x, ls_off lst = Some x -> ls_boff lst = Some (x - Z.of_nat bs)) ->
+    lstep lst f = Ok (lst', fo) ->
+    fo = None /\ nb <= ls_brem lst /\ lst' = mkLS (ls_off lst) (Z.max (ls_align lst) (field_align c f)) (ls_btype lst) (ls_boff lst) (ls_brem lst - nb).
+  Proof.
+    intros Hb Hnz Hst Hbr Hbt Hsz Hbo H. unfold lstep, layout_step in H. rewrite Hb, Hst in H. assert (nb =? 0 = false) as E0 by now apply Z.eqb_neq. rewrite E0 in H.
+    assert (ls_brem lst =? 0 = false) as E1 by now apply Z.eqb_neq. rewrite E1, Hbt in H.
+    assert (Hse : storage_eqb (Some (p, al)) (Some (p, al)) = true) by (cbn; rewrite Z.eqb_refl, andb_true_r; destruct p; cbn; rewrite ?Nat.eqb_refl, ?Bool.eqb_reflx; reflexivity).
+    rewrite Hse in H. cbn [negb] in H. unfold prim_size_z in H. rewrite Hsz in H. cbn [option_map] in H.
+    destruct (ls_off lst) as [o|] eqn:Eo.
+    - rewrite (Hbo o eq_refl) in H. assert (o - Z.of_nat bs + Z.of_nat bs <? o = false) as E2 by (apply Z.ltb_ge; lia). rewrite E2 in H. cbn [bind ls_brem ls_off ls_align ls_btype ls_boff] in H.
+      destruct (Z.ltb_spec (ls_brem lst - nb) 0); [discriminate|]. injection H as <- <-. rewrite Hbt, (Hbo o eq_refl). repeat split; lia || reflexivity.
+    - cbn [bind ls_brem ls_off ls_align ls_btype ls_boff] in H. destruct (Z.ltb_spec (ls_brem lst - nb) 0); [discriminate|]. injection H as <- <-. rewrite Hbt. repeat split; lia || reflexivity.
+  Qed.
+
+  Lemma plan_loop : forall fs lst gst st P gst' Pf gst'',
+    Forall cls' fs -> lay_run lst fs -> inv gst lst st ->
     0 <= p_pos st -> 0 <= start ->
     bsize c (g_block gst) + bsize c fs <= 9223372036854775807 ->
     plan_go c false fs gst = Ok (P, gst') -> flush c false gst' = Ok (Pf, gst'') ->
     req (run_instrs c rd s start cal (P ++ Pf) st) (do st1 <- seq_blockS (g_block gst) st; seq_loop fs st1).
   Proof.
-    induction fs as [|f r IH]; intros off gst st P gst' Pf gst'' Hcls Hoffs Hpb HB Hcont Hcend Hoff Hknown Hpos Hstart Hbound HP HF.
-    - cbn [plan_go] in HP. injection HP as <- <-. cbn [app seq_loop]. cbn [bsize fold_right] in Hbound.
+    induction fs as [|f r IH]; intros lst gst st P gst' Pf gst'' Hcls Hlay Hinv Hpos Hstart Hbound HP HF.
+    - destruct Hinv as [HB [Hcont _]]. cbn [plan_go] in HP. injection HP as <- <-. cbn [app seq_loop]. cbn [bsize fold_right] in Hbound.
       destruct (flush_sound gst Pf gst'' st HB Hcont ltac:(lia) Hpos HF) as [R _].
       destruct (seq_blockS (g_block gst) st); cbn [bind]; exact R.
-    - inversion Hcls as [|? ? [Hbits Hkind] Hcr]; subst. destruct Hoffs as [Hfo Hoffs].
+    - inversion Hcls as [|? ? Hkind Hcr]; subst. destruct Hlay as [lst' [Hls Hlay]].
       cbn [plan_go] in HP. destruct (plan_step c false f gst) as [[P1 gst1]|] eqn:E1; [|discriminate]. cbn [bind fst snd] in HP.
       destruct (plan_go c false r gst1) as [[P2 gst2]|] eqn:E2; [|discriminate]. cbn [bind fst snd] in HP. injection HP as <- <-.
       pose proof (bsize_nonneg c fuel (g_block gst)) as HbB. pose proof (bsize_nonneg c fuel r) as Hbr.
       cbn [bsize fold_right] in Hbound. fold (bsize c r) in Hbound.
-      destruct (bmem c (f_ty f)) as [[p cnt]|] eqn:Ep.
-      + (* a scalar member: joins the block *)
-        clear Hkind. pose proof (msize_nonneg c (f_ty f)) as Hpz. assert (Hmb : msize c (f_ty f) <= 9223372036854775807) by lia.
-        destruct (bmem_facts c fuel _ _ _ Ep Hmb) as [sz0 [hp0 [hm0 [_ [_ [_ [_ [Hts _]]]]]]]].
-        rewrite Hts in Hoffs.
-        assert (Hcond : forall o, f_off f = Some o -> g_block gst <> [] -> o = g_off gst).
-        { intros o Ho _. rewrite Hfo in Ho. now destruct (Hoff o Ho) as [_ [-> _]]. }
-        rewrite (plan_step_plain f gst p cnt Ep Hmb Hbits Hpb Hcond) in E1.
-        destruct (g_block gst) as [|b0 B] eqn:EB.
-        * (* the block starts here *)
-          unfold align_to_field in E1. cbn [andb app] in E1.
-          destruct (f_off f) as [o|] eqn:Eo.
-          -- destruct (Hoff o (eq_sym Hfo)) as [Ho0 [Hgo _]]. subst o.
-             assert (Hsk : (negb (g_off gst =? g_off gst) || negb (g_known gst)) = negb (g_known gst)) by now rewrite Z.eqb_refl.
-             rewrite Hsk in E1.
-             destruct (g_known gst) eqn:Ek; cbn [negb app] in E1; injection E1 as <- <-.
-             ++ cbn [app]. pose proof (Hknown eq_refl) as Hk. cbn [bsize fold_right] in Hk.
-                refine (req_trans _ _ _ (IH _ _ st _ _ _ _ Hcr Hoffs _ _ _ _ _ _ Hpos Hstart _ E2 HF) _); cbn [g_pbits g_block g_off g_known app hoff]; rewrite ?EB; cbn [app hoff bsize fold_right].
-                all: try rewrite Ep.
-                ** exact Hpb.
-                ** unfold inclass; constructor; [congruence|constructor].
-                ** cbn [contig]. rewrite Eo. split; [reflexivity|exact I].
-                ** intros _. unfold cend. cbn [fold_left]. rewrite Eo, <- Hfo. cbn [option_map]. try (f_equal; lia); reflexivity.
-                ** intros x Hx. rewrite <- Hfo in Hx. cbn [option_map] in Hx. injection Hx as <-. repeat split; try lia; intros _; first [exact Ek|reflexivity].
-                ** intros _. lia.
+      destruct Hkind as [[Hbits Hkind]|Hbf].
+      + (* ---------- a member that is not a bit field ---------- *)
+        pose proof (bits_on_none f Hbits) as Hbo.
+        rewrite (lstep_plain lst f Hbits) in Hls. injection Hls as <- Hfo. symmetry in Hfo.
+        (* leave a run of bit fields first: bit_reader.reset() *)
+        assert (Hnorm : exists gstN stN PN P1', g_pbits gstN = false /\ g_off gstN = g_off gst /\ g_block gstN = g_block gst /\ g_known gstN = g_known gst /\ g_roll gstN = false /\
+                  p_bb stN = bb_empty /\ p_pos stN = p_pos st /\ p_vals stN = p_vals st /\ p_sizes stN = p_sizes st /\ p_ctx stN = p_ctx st /\
+                  plan_step c false f gstN = Ok (P1', gst1) /\ P1 = PN ++ P1' /\ run_instrs c rd s start cal PN st = Ok stN /\ (g_block gst <> [] -> stN = st)).
+        { destruct Hinv as [_ [_ [_ [_ [_ [Hroll [Hi1 Hi2]]]]]]]. destruct (g_pbits gst) eqn:Epb.
+          - rewrite (plan_step_after_bits f gst Epb Hbo) in E1. destruct (plan_step c false f (clear_bits gst)) as [[P1' g1]|] eqn:E1'; [|discriminate]. cbn [bind fst snd] in E1. injection E1 as <- <-.
+            destruct (Hi2 eq_refl) as [Hblk _].
+            exists (clear_bits gst), (mkPS (p_pos st) bb_empty (p_vals st) (p_sizes st) (p_ctx st)), [IReset], P1'. cbn [clear_bits g_pbits g_off g_block g_known g_roll p_bb p_pos p_vals p_sizes p_ctx].
+            repeat split; try reflexivity; try assumption. intros Hne. now rewrite Hblk in Hne.
+          - destruct (Hi1 eq_refl) as [_ Hbb]. exists gst, st, [], P1. repeat split; try reflexivity; try assumption. }
+        destruct Hnorm as [gstN [stN [PN [P1' [Hpb [HgoN [HblkN [HknN [Hroll [HbbN [HposN [HvN [HszN [HcxN [E1' [-> [HrunN HsameN]]]]]]]]]]]]]]]]].
+        rewrite <- !app_assoc, run_instrs_app, HrunN. cbn [bind].
+        destruct Hinv as [HB [Hcont [Hcend [Hoff [Hknown _]]]]]. rewrite <- HblkN in HB, Hcont, Hcend, Hoff, Hknown, Hbound, HbB. rewrite <- HgoN, <- HknN in Hoff. rewrite <- HgoN, <- HknN, <- HposN in Hknown.
+        assert (HposN' : 0 <= p_pos stN) by lia.
+        (* the interpreted side does not see the difference *)
+        assert (HrhsN : (do st1 <- seq_blockS (g_block gst) st; seq_loop (f :: r) st1) = (do st1 <- seq_blockS (g_block gstN) stN; seq_loop (f :: r) st1)).
+        { rewrite HblkN. destruct (g_block gst) as [|b0 B0] eqn:EB; [|now rewrite (HsameN ltac:(discriminate))].
+          unfold seq_blockS. cbn [seq_block bind fst snd seq_loop]. rewrite !set_pos_id. now rewrite (read_member_pos f st stN Hbo (eq_sym HvN) (eq_sym HszN) (eq_sym HcxN) (fun _ => eq_sym HposN)). }
+        rewrite HrhsN. clear HrhsN HrunN HsameN E1. rename E1' into E1.
+        set (off := ls_off lst) in *.
+        set (lst' := mkLS (match off with Some o => match ty_size c (f_ty f) with Some n => Some (o + n) | None => None end | None => None end) (Z.max (ls_align lst) (field_align c f)) None (Some 0) 0) in *.
+        destruct (bmem c (f_ty f)) as [[p cnt]|] eqn:Ep.
+        * (* a scalar or an array of scalars: joins the block *)
+          clear Hkind. pose proof (msize_nonneg c (f_ty f)) as Hpz. assert (Hmb : msize c (f_ty f) <= 9223372036854775807) by lia.
+          destruct (bmem_facts c fuel _ _ _ Ep Hmb) as [sz0 [hp0 [hm0 [_ [_ [_ [_ [Hts _]]]]]]]].
+          unfold lst' in *. rewrite Hts in *. clear lst'. set (lst' := mkLS (match off with Some o => Some (o + msize c (f_ty f)) | None => None end) (Z.max (ls_align lst) (field_align c f)) None (Some 0) 0) in *.
+          assert (Hcond : forall o, f_off f = Some o -> g_block gstN <> [] -> o = g_off gstN).
+          { intros o Ho _. rewrite Hfo in Ho. now destruct (Hoff o Ho) as [_ [-> _]]. }
+          rewrite (plan_step_plain f gstN p cnt Ep Hmb Hbits Hpb Hcond) in E1.
+          assert (Htail : forall g x, g_roll g = false -> g_pbits g = false -> p_bb x = bb_empty ->
+                    g_roll g = false /\ (g_pbits g = false -> ls_brem lst' = 0 /\ p_bb x = bb_empty) /\
+                    (g_pbits g = true -> g_block g = [] /\ ls_brem lst' = g_brem g /\ ls_btype lst' = g_btype g /\ bb_rem (p_bb x) = g_brem g /\ bb_type (p_bb x) = g_btype g /\
+                       exists bp bal bs, g_btype g = Some (bp, bal) /\ prim_size bp = Some bs /\ forall y, ls_off lst' = Some y -> ls_boff lst' = Some (y - Z.of_nat bs))).
+          { intros g x H1 H2 H3. split; [exact H1|]. split; [intros _; split; [reflexivity|exact H3]|]. intros H4. congruence. }
+          destruct (g_block gstN) as [|b0 B] eqn:EB.
+          -- (* the block starts here *)
+             unfold align_to_field in E1. cbn [andb app] in E1.
+             destruct (f_off f) as [o|] eqn:Eo.
+             ++ destruct (Hoff o (eq_sym Hfo)) as [Ho0 [Hgo _]]. subst o.
+                assert (Hsk : (negb (g_off gstN =? g_off gstN) || negb (g_known gstN)) = negb (g_known gstN)) by now rewrite Z.eqb_refl.
+                rewrite Hsk in E1.
+                destruct (g_known gstN) eqn:Ek; cbn [negb app] in E1; injection E1 as <- <-.
+                ** cbn [app]. pose proof (Hknown eq_refl) as Hk. cbn [bsize fold_right] in Hk.
+                   refine (req_trans _ _ _ (IH lst' _ stN _ _ _ _ Hcr Hlay _ HposN' Hstart _ E2 HF) _); cbn [g_pbits g_block g_off g_known g_roll app hoff]; rewrite ?EB; cbn [app hoff bsize fold_right].
+                   --- unfold inv. cbn [g_pbits g_block g_off g_known g_roll g_btype g_brem]. rewrite ?EB. cbn [app hoff bsize fold_right ls_off lst'].
+                       split; [unfold inclass; constructor; [congruence|constructor]|]. split; [cbn [contig]; rewrite Eo; split; [reflexivity|exact I]|].
+                       split; [intros _; unfold cend; cbn [fold_left]; rewrite Eo, <- Hfo; cbn [option_map]; f_equal; lia|].
+                       split; [intros x Hx; rewrite <- Hfo in Hx; injection Hx as <-; repeat split; try lia; intros _; exact Ek|].
+                       split; [intros _; lia|]. (split; [reflexivity|]; split; [intros _; split; [reflexivity|exact HbbN]|]; intros Hx; congruence).
+                   --- lia.
+                   --- assert (Hs : seq_blockS [f] stN = do st1 <- seq_blockS [] stN; read_member f st1)
+                         by (apply (blockS_snoc [] f stN (Forall_nil _) ltac:(cbn [bsize fold_right]; lia) HposN' Hbo HbbN); intros o Ho; rewrite Eo in Ho; injection Ho as <-; cbn [bsize fold_right]; lia).
+                       rewrite Hs. apply req_refl.
+                ** cbn [app run_instrs run_instr bind].
+                   set (st' := mkPS (start + g_off gstN) (p_bb stN) (p_vals stN) (p_sizes stN) (p_ctx stN)).
+                   assert (Hpos' : 0 <= p_pos st') by (cbn [p_pos st']; lia).
+                   refine (req_trans _ _ _ (IH lst' _ st' _ _ _ _ Hcr Hlay _ Hpos' Hstart _ E2 HF) _); cbn [g_pbits g_block g_off g_known g_roll app hoff p_pos st']; rewrite ?EB; cbn [app hoff bsize fold_right].
+                   --- unfold inv. cbn [g_pbits g_block g_off g_known g_roll g_btype g_brem]. rewrite ?EB. cbn [app hoff bsize fold_right ls_off lst' p_pos st'].
+                       split; [unfold inclass; constructor; [congruence|constructor]|]. split; [cbn [contig]; rewrite Eo; split; [reflexivity|exact I]|].
+                       split; [intros _; unfold cend; cbn [fold_left]; rewrite Eo, <- Hfo; cbn [option_map]; f_equal; lia|].
+                       split; [intros x Hx; rewrite <- Hfo in Hx; injection Hx as <-; repeat split; try lia; intros _; reflexivity|].
+                       split; [intros _; lia|]. (split; [reflexivity|]; split; [intros _; split; [reflexivity|exact HbbN]|]; intros Hx; congruence).
+                   --- lia.
+                   --- assert (Hs : seq_blockS [f] st' = do st1 <- seq_blockS [] st'; read_member f st1)
+                         by (apply (blockS_snoc [] f st' (Forall_nil _) ltac:(cbn [bsize fold_right]; lia) Hpos' Hbo HbbN); cbn [p_pos st' bsize fold_right]; intros o Ho; rewrite Eo in Ho; injection Ho as <-; lia).
+                       rewrite Hs. unfold seq_blockS. cbn [seq_block bind fst snd]. rewrite !set_pos_id.
+                       rewrite (read_member_pos f st' stN Hbo) by (try reflexivity; intros Hn; rewrite Eo in Hn; discriminate). apply req_refl.
+             ++ cbn [app] in E1. injection E1 as <- <-. cbn [app].
+                refine (req_trans _ _ _ (IH lst' _ stN _ _ _ _ Hcr Hlay _ HposN' Hstart _ E2 HF) _); cbn [g_pbits g_block g_off g_known g_roll app hoff]; rewrite ?EB; cbn [app hoff bsize fold_right].
+                ** unfold inv. cbn [g_pbits g_block g_off g_known g_roll g_btype g_brem]. rewrite ?EB. cbn [app hoff bsize fold_right ls_off lst'].
+                   split; [unfold inclass; constructor; [congruence|constructor]|]. split; [cbn [contig]; rewrite Eo; split; [exact I|exact I]|].
+                   split; [intros _; unfold cend; cbn [fold_left]; rewrite Eo, <- Hfo; reflexivity|].
+                   split; [intros x Hx; rewrite <- Hfo in Hx; discriminate|].
+                   split; [intros Hk; pose proof (Hknown Hk) as Hk'; cbn [bsize fold_right] in Hk'; lia|]. (split; [reflexivity|]; split; [intros _; split; [reflexivity|exact HbbN]|]; intros Hx; congruence).
                 ** lia.
-                ** assert (Hs : seq_blockS [f] st = do st1 <- seq_blockS [] st; read_member f st1)
-                     by (apply (blockS_snoc [] f st (Forall_nil _) ltac:(cbn [bsize fold_right]; lia) Hpos); intros o Ho; rewrite Eo in Ho; injection Ho as <-; cbn [bsize fold_right]; lia).
+                ** assert (Hs : seq_blockS [f] stN = do st1 <- seq_blockS [] stN; read_member f st1)
+                     by (apply (blockS_snoc [] f stN (Forall_nil _) ltac:(cbn [bsize fold_right]; lia) HposN' Hbo HbbN); intros o Ho; rewrite Eo in Ho; discriminate).
                    rewrite Hs. apply req_refl.
-             ++ cbn [app run_instrs run_instr bind].
-                set (st' := mkPS (start + g_off gst) (p_bb st) (p_vals st) (p_sizes st) (p_ctx st)).
-                refine (req_trans _ _ _ (IH _ _ st' _ _ _ _ Hcr Hoffs _ _ _ _ _ _ _ Hstart _ E2 HF) _); cbn [g_pbits g_block g_off g_known app hoff p_pos st']; rewrite ?EB; cbn [app hoff bsize fold_right].
-                all: try rewrite Ep.
-                ** exact Hpb.
-                ** unfold inclass; constructor; [congruence|constructor].
-                ** cbn [contig]. rewrite Eo. split; [reflexivity|exact I].
-                ** intros _. unfold cend. cbn [fold_left]. rewrite Eo, <- Hfo. cbn [option_map]. try (f_equal; lia); reflexivity.
-                ** intros x Hx. rewrite <- Hfo in Hx. cbn [option_map] in Hx. injection Hx as <-. repeat split; try lia; intros _; first [exact Ek|reflexivity].
-                ** intros _. lia.
-                ** lia.
-                ** lia.
-                ** assert (Hs : seq_blockS [f] st' = do st1 <- seq_blockS [] st'; read_member f st1)
-                     by (apply (blockS_snoc [] f st' (Forall_nil _) ltac:(cbn [bsize fold_right]; lia)); cbn [p_pos st' bsize fold_right]; try lia; intros o Ho; rewrite Eo in Ho; injection Ho as <-; lia).
-                   rewrite Hs. unfold seq_blockS. cbn [seq_block bind fst snd]. rewrite !set_pos_id.
-                   rewrite (read_member_pos f st' st) by (try reflexivity; intros Hn; rewrite Eo in Hn; discriminate). apply req_refl.
-          -- cbn [app] in E1. injection E1 as <- <-. cbn [app].
-             refine (req_trans _ _ _ (IH _ _ st _ _ _ _ Hcr Hoffs _ _ _ _ _ _ Hpos Hstart _ E2 HF) _); cbn [g_pbits g_block g_off g_known app hoff]; rewrite ?EB; cbn [app hoff bsize fold_right].
-             all: try rewrite Ep.
-             ** exact Hpb.
-             ** unfold inclass; constructor; [congruence|constructor].
-             ** cbn [contig]. rewrite Eo. split; [exact I|exact I].
-             ** intros _. unfold cend. cbn [fold_left]. rewrite Eo, <- Hfo. cbn [option_map]. try (f_equal; lia); reflexivity.
-             ** intros x Hx. rewrite <- Hfo in Hx. discriminate.
-             ** intros Hk. pose proof (Hknown Hk) as Hk'. cbn [bsize fold_right] in Hk'. lia.
-             ** lia.
-             ** assert (Hs : seq_blockS [f] st = do st1 <- seq_blockS [] st; read_member f st1)
-                  by (apply (blockS_snoc [] f st (Forall_nil _) ltac:(cbn [bsize fold_right]; lia) Hpos); intros o Ho; rewrite Eo in Ho; discriminate).
-                rewrite Hs. apply req_refl.
-        * (* the block goes on *)
-          injection E1 as <- <-. cbn [app]. rewrite <- EB in *.
-          assert (Hne : g_block gst <> []) by (rewrite EB; discriminate).
-          refine (req_trans _ _ _ (IH _ _ st _ _ _ _ Hcr Hoffs _ _ _ _ _ _ Hpos Hstart _ E2 HF) _); cbn [g_pbits g_block g_off g_known].
-          -- exact Hpb.
-          -- apply Forall_app. split; [exact HB|]. unfold inclass; constructor; [congruence|constructor].
-          -- assert (Hh : hoff (g_block gst ++ [f]) = hoff (g_block gst)) by (rewrite EB; reflexivity). rewrite Hh.
-             apply contig_app; [exact Hcont|]. destruct (f_off f) as [o|] eqn:Eo; [|exact I]. fold (cend (hoff (g_block gst)) (g_block gst)). rewrite (Hcend Hne). now rewrite Hfo.
-          -- intros _. assert (Hh : hoff (g_block gst ++ [f]) = hoff (g_block gst)) by (rewrite EB; reflexivity). rewrite Hh, cend_snoc, (Hcend Hne). destruct off; cbn [option_map]; [f_equal; lia|reflexivity].
-          -- intros x Hx. destruct off as [x0|]; [|discriminate]. cbn [option_map] in Hx. injection Hx as <-. destruct (Hoff x0 eq_refl) as [H0 [Hg Hk]]. repeat split; [lia|lia|]. intros _. now apply Hk.
-          -- intros Hk. rewrite bsize_snoc. pose proof (Hknown Hk). lia.
-          -- rewrite bsize_snoc. lia.
-          -- rewrite (blockS_snoc (g_block gst) f st HB ltac:(lia) Hpos).
-             ++ destruct (seq_blockS (g_block gst) st); cbn [bind seq_loop]; apply req_refl.
-             ++ intros o Ho. rewrite Hfo in Ho. destruct (Hoff o Ho) as [_ [Hg Hk]]. rewrite <- Hg. apply Hknown. now apply Hk.
-      + (* a member with a reader of its own *)
-        destruct Hkind as [Hk|[Hsub [Hsz Hnn]]]; [congruence|]. subst off.
-        assert (Hm0 : msize c (f_ty f) = 0) by (unfold msize; now rewrite Ep). rewrite Hm0 in Hbound.
-        destruct (plan_step_sub f gst P1 gst1 Hsub Hbits Hpb E1) as [Pb [stb [Hfl [-> ->]]]].
-        destruct (flush_sound gst Pb stb st HB Hcont ltac:(lia) Hpos Hfl) as [RB ->].
+          -- (* the block goes on *)
+             injection E1 as <- <-. cbn [app]. rewrite <- EB in *.
+             assert (Hne : g_block gstN <> []) by (rewrite EB; discriminate).
+             refine (req_trans _ _ _ (IH lst' _ stN _ _ _ _ Hcr Hlay _ HposN' Hstart _ E2 HF) _); cbn [g_pbits g_block g_off g_known g_roll].
+             ++ unfold inv. cbn [g_pbits g_block g_off g_known g_roll g_btype g_brem ls_off lst'].
+                split; [unfold inclass in *; apply Forall_app; split; [exact HB|]; constructor; [congruence|constructor]|].
+                assert (Hh : hoff (g_block gstN ++ [f]) = hoff (g_block gstN)) by (rewrite EB; reflexivity). rewrite Hh.
+                split; [apply contig_app; [exact Hcont|]; destruct (f_off f) as [o|] eqn:Eo; [|exact I]; fold (cend (hoff (g_block gstN)) (g_block gstN)); rewrite (Hcend Hne); now rewrite Hfo|].
+                split; [intros _; rewrite cend_snoc, (Hcend Hne); destruct off; cbn [option_map]; [f_equal; lia|reflexivity]|].
+                split; [intros x Hx; destruct off as [x0|]; [|discriminate]; injection Hx as <-; destruct (Hoff x0 eq_refl) as [H0 [Hg Hk]]; repeat split; [lia|lia|]; intros _; now apply Hk|].
+                split; [intros Hk; rewrite bsize_snoc; pose proof (Hknown Hk); lia|]. (split; [reflexivity|]; split; [intros _; split; [reflexivity|exact HbbN]|]; intros Hx; congruence).
+             ++ rewrite bsize_snoc. lia.
+             ++ rewrite (blockS_snoc (g_block gstN) f stN HB ltac:(lia) HposN' Hbo HbbN).
+                ** destruct (seq_blockS (g_block gstN) stN); cbn [bind seq_loop]; apply req_refl.
+                ** intros o Ho. rewrite Hfo in Ho. destruct (Hoff o Ho) as [_ [Hg Hk]]. rewrite <- Hg. apply Hknown. now apply Hk.
+        * (* a member with a reader of its own *)
+          destruct Hkind as [Hk|[Hsub [Hsz Hnn]]]; [congruence|].
+          assert (Hm0 : msize c (f_ty f) = 0) by (unfold msize; now rewrite Ep). rewrite Hm0 in Hbound.
+          destruct (plan_step_sub f gstN P1' gst1 Hsub Hbits Hpb E1) as [Pb [stb [Hfl [-> ->]]]].
+          destruct (flush_sound gstN Pb stb stN HB Hcont ltac:(lia) HposN' Hfl) as [RB ->].
+          rewrite <- !app_assoc, run_instrs_app. cbn [seq_loop].
+          apply req_bind'; [exact RB|]. intros st1 Est1.
+          assert (Hp1 : p_pos st1 = p_pos stN + bsize c (g_block gstN) /\ p_bb st1 = bb_empty).
+          { unfold seq_blockS in Est1. destruct (seq_block c fuel (g_block gstN) s (p_pos stN) stN) as [[sx qx]|] eqn:Eq; [|discriminate]. cbn [bind fst snd] in Est1. injection Est1 as <-.
+            cbn [set_pos p_pos p_bb]. split; [exact (seq_block_end c fuel _ _ _ _ _ _ HposN' HB ltac:(lia) Eq)|]. destruct (seq_block_pos _ _ _ _ _ Eq) as [_ ->]. exact HbbN. }
+          destruct Hp1 as [Hp1 Hbb1].
+          set (stb := mkGS (g_off gstN) [] (g_pbits gstN) (g_btype gstN) (g_brem gstN) (g_roll gstN) (g_known gstN)) in *.
+          assert (Hrun : exists stc q, snd (align_to_field c false f stb) = stc /\ g_block stc = [] /\ g_pbits stc = false /\ g_roll stc = false /\
+                     (forall x, f_off f = Some x -> g_off stc = x) /\ 0 <= q /\
+                     read_member f st1 = (do x <- rd f s q (p_ctx st1);
+                                          Ok (mkPS (snd x) bb_empty ((f_name f, fst x) :: p_vals st1) ((f_name f, snd x - q) :: p_sizes st1) (int_ctx (f_name f) (fst x) (p_ctx st1)))) /\
+                     forall rest, run_instrs c rd s start cal (fst (align_to_field c false f stb) ++ ISub f :: rest) st1 =
+                       do st2 <- read_member f st1; run_instrs c rd s start cal rest st2).
+          { unfold align_to_field, read_member. rewrite Hbo. cbn [andb app]. destruct (f_off f) as [o|] eqn:Eo.
+            - destruct (Hoff o (eq_sym Hfo)) as [H0 [Hgo Hkn]]. cbn [g_off g_known stb]. rewrite Hgo, Z.eqb_refl. cbn [negb orb].
+              destruct (g_known gstN) eqn:Ek; cbn [negb fst snd app].
+              + exists stb, (start + o). split; [reflexivity|]. cbn [stb g_block g_pbits g_off g_roll]. split; [reflexivity|]. split; [exact Hpb|]. split; [exact Hroll|]. split; [intros x Hx; congruence|]. split; [lia|]. split; [reflexivity|].
+                intros rest. cbn [run_instrs run_instr].
+                assert (Hq : p_pos st1 = start + o) by (rewrite Hp1, (Hknown eq_refl); lia). rewrite Hq, Hbb1.
+                destruct (rd f s (start + o) (p_ctx st1)) as [[v p']|]; reflexivity.
+              + eexists. exists (start + o). split; [reflexivity|]. cbn [g_block g_pbits g_off g_roll]. split; [reflexivity|]. split; [exact Hpb|]. split; [exact Hroll|]. split; [intros x Hx; congruence|]. split; [lia|]. split; [reflexivity|].
+                intros rest. cbn [run_instrs run_instr bind p_pos p_ctx p_bb p_vals p_sizes]. rewrite Hbb1.
+                destruct (rd f s (start + o) (p_ctx st1)) as [[v p']|]; reflexivity.
+            - exists stb, (p_pos st1). split; [reflexivity|]. cbn [stb g_block g_pbits g_off g_roll fst snd app]. split; [reflexivity|]. split; [exact Hpb|]. split; [exact Hroll|]. split; [intros x Hx; discriminate|]. split; [lia|]. split; [reflexivity|].
+              intros rest. cbn [run_instrs run_instr]. rewrite Hbb1. destruct (rd f s (p_pos st1) (p_ctx st1)) as [[v p']|]; reflexivity. }
+          destruct Hrun as [stc [q [Estc [Hcb [Hcp [Hcr' [Hco [Hq0 [Hrm Hrun]]]]]]]]]. rewrite Estc in *.
+          replace (fst (align_to_field c false f stb) ++ [ISub f] ++ P2 ++ Pf) with (fst (align_to_field c false f stb) ++ ISub f :: (P2 ++ Pf)) by reflexivity.
+          rewrite Hrun. apply req_bind'; [apply req_refl|]. intros st2 Est2.
+          assert (Hp2 : 0 <= p_pos st2 /\ p_bb st2 = bb_empty).
+          { rewrite Hrm in Est2. destruct (rd f s q (p_ctx st1)) as [[v p']|] eqn:Er; [|discriminate]. cbn [bind fst snd] in Est2. injection Est2 as <-.
+            cbn [p_pos p_bb]. split; [exact (Hnn _ _ _ _ _ Hq0 Er)|reflexivity]. }
+          destruct Hp2 as [Hp2 Hbb2].
+          refine (req_trans _ _ _ (IH lst' (after_sub f stc) st2 _ _ _ _ Hcr Hlay _ Hp2 Hstart _ E2 HF) _); unfold after_sub; cbn [g_pbits g_block g_off g_known g_roll]; rewrite ?Hcb.
+          -- unfold inv, after_sub. cbn [g_pbits g_block g_off g_known g_roll g_btype g_brem ls_off lst']. rewrite ?Hcb.
+             split; [constructor|]. split; [exact I|]. split; [intros Hne; now contradiction Hne|].
+             split. { intros x Hx. destruct off as [x0|] eqn:Eoff; [|discriminate]. destruct (ty_size c (f_ty f)) as [n|] eqn:En; [|discriminate]. injection Hx as <-.
+                      destruct (Hoff x0 eq_refl) as [H0 _]. pose proof (Hsz n eq_refl). rewrite (Hco x0 Hfo). repeat split; try lia. intros Hne. now contradiction Hne. }
+             split; [discriminate|]. split; [destruct (ty_size c (f_ty f)); [reflexivity|exact Hcr']|].
+             split; [intros _; split; [reflexivity|exact Hbb2]|]. intros Hx. congruence.
+          -- cbn [bsize fold_right]. lia.
+          -- unfold seq_blockS. cbn [seq_block bind fst snd]. rewrite set_pos_id. apply req_refl.
+      + (* ---------- a bit field ---------- *)
+        destruct Hbf as [nb [p [al [sz [Hb [Hnz [Hst [Hsz [Hnv Hshape]]]]]]]]].
+        assert (Hbo : bits_on f = Some nb) by (unfold bits_on; rewrite Hb; destruct (Z.eqb_spec nb 0); [contradiction|reflexivity]).
+        pose proof (msize_nonneg c (f_ty f)) as Hmz.
+        rewrite (plan_step_bits f gst nb p al sz Hb Hnz Hst Hsz Hnv Hshape) in E1. cbv zeta in E1.
+        destruct Hinv as [HB [Hcont [Hcend [Hoff [Hknown [Hroll [Hi1 Hi2]]]]]]].
+        set (nuG := negb (g_pbits gst) || (g_brem gst =? 0) || negb (storage_eqb (g_btype gst) (Some (p, al)))) in *.
+        set (st1 := if nuG then mkGS (g_off gst) (g_block gst) (g_pbits gst) (Some (p, al)) (Z.of_nat sz * 8) true (g_known gst) else gst) in *.
+        assert (Hst1 : g_off st1 = g_off gst /\ g_block st1 = g_block gst /\ g_known st1 = g_known gst /\ g_roll st1 = nuG /\
+                       g_btype st1 = (if nuG then Some (p, al) else g_btype gst) /\ g_brem st1 = (if nuG then Z.of_nat sz * 8 else g_brem gst)).
+        { unfold st1. destruct nuG; cbn [g_off g_block g_known g_roll g_btype g_brem]; repeat split; try reflexivity. exact Hroll. }
+        destruct Hst1 as [H1o [H1b [H1k [H1r [H1t H1m]]]]].
+        set (st2 := mkGS (g_off st1) (g_block st1) true (g_btype st1) (g_brem st1 - nb) (g_roll st1) (g_known st1)) in *.
+        destruct (flush c false st2) as [[Pb stb]|] eqn:Hfl; [|discriminate]. cbn [bind fst snd] in E1.
+        assert (HB2 : inclass c (g_block st2)) by (cbn [st2 g_block]; now rewrite H1b).
+        assert (Hc2 : contig c (hoff (g_block st2)) (g_block st2)) by (cbn [st2 g_block]; now rewrite H1b).
+        destruct (flush_sound st2 Pb stb st HB2 Hc2 ltac:(cbn [st2 g_block]; rewrite H1b; lia) Hpos Hfl) as [RB Estb]. cbn [st2 g_off g_pbits g_btype g_brem g_roll g_known g_block] in RB, Estb.
+        rewrite H1b in RB. rewrite H1o, H1k, H1r, H1t, H1m in Estb.
+        destruct (align_to_field c false f stb) as [ia st3] eqn:Eal. cbn [bind fst snd] in E1. injection E1 as <- <-.
         rewrite <- !app_assoc, run_instrs_app. cbn [seq_loop].
-        apply req_bind'; [exact RB|]. intros st1 Est1.
-        assert (Hp1 : p_pos st1 = p_pos st + bsize c (g_block gst)).
+        apply req_bind'; [exact RB|]. intros st1' Est1.
+        assert (Hp1 : p_pos st1' = p_pos st + bsize c (g_block gst) /\ p_bb st1' = p_bb st).
         { unfold seq_blockS in Est1. destruct (seq_block c fuel (g_block gst) s (p_pos st) st) as [[sx qx]|] eqn:Eq; [|discriminate]. cbn [bind fst snd] in Est1. injection Est1 as <-.
-          cbn [set_pos p_pos]. exact (seq_block_end c fuel _ _ _ _ _ _ Hpos HB ltac:(lia) Eq). }
-        set (stb := mkGS (g_off gst) [] (g_pbits gst) (g_btype gst) (g_brem gst) (g_roll gst) (g_known gst)) in *.
-        assert (Hrun : exists stc q, snd (align_to_field c false f stb) = stc /\ g_block stc = [] /\ g_pbits stc = false /\
-                   (forall x, f_off f = Some x -> g_off stc = x) /\ 0 <= q /\
-                   read_member f st1 = (do x <- rd f s q (p_ctx st1);
-                                        Ok (mkPS (snd x) (p_bb st1) ((f_name f, fst x) :: p_vals st1) ((f_name f, snd x - q) :: p_sizes st1) (int_ctx (f_name f) (fst x) (p_ctx st1)))) /\
-                   forall rest, run_instrs c rd s start cal (fst (align_to_field c false f stb) ++ ISub f :: rest) st1 =
-                     do st2 <- read_member f st1; run_instrs c rd s start cal rest st2).
-        { unfold align_to_field, read_member. cbn [andb app]. destruct (f_off f) as [o|] eqn:Eo.
-          - destruct (Hoff o eq_refl) as [H0 [Hgo Hkn]]. cbn [g_off g_known stb]. rewrite Hgo, Z.eqb_refl. cbn [negb orb].
-            destruct (g_known gst) eqn:Ek; cbn [negb fst snd app].
-            + exists stb, (start + o). split; [reflexivity|]. cbn [stb g_block g_pbits g_off]. split; [reflexivity|]. split; [exact Hpb|]. split; [intros x Hx; congruence|]. split; [lia|]. split; [reflexivity|].
-              intros rest. cbn [run_instrs run_instr].
-              assert (Hq : p_pos st1 = start + o) by (rewrite Hp1, (Hknown eq_refl); lia). rewrite Hq.
-              destruct (rd f s (start + o) (p_ctx st1)) as [[v p']|]; reflexivity.
-            + eexists. exists (start + o). split; [reflexivity|]. cbn [g_block g_pbits g_off]. split; [reflexivity|]. split; [exact Hpb|]. split; [intros x Hx; congruence|]. split; [lia|]. split; [reflexivity|].
-              intros rest. cbn [run_instrs run_instr bind p_pos p_ctx p_bb p_vals p_sizes].
-              destruct (rd f s (start + o) (p_ctx st1)) as [[v p']|]; reflexivity.
-          - exists stb, (p_pos st1). split; [reflexivity|]. cbn [stb g_block g_pbits g_off fst snd app]. split; [reflexivity|]. split; [exact Hpb|]. split; [intros x Hx; discriminate|]. split; [lia|]. split; [reflexivity|].
-            intros rest. cbn [run_instrs run_instr]. destruct (rd f s (p_pos st1) (p_ctx st1)) as [[v p']|]; reflexivity. }
-        destruct Hrun as [stc [q [Estc [Hcb [Hcp [Hco [Hq0 [Hrm Hrun]]]]]]]]. rewrite Estc in *.
-        replace (fst (align_to_field c false f stb) ++ [ISub f] ++ P2 ++ Pf) with (fst (align_to_field c false f stb) ++ ISub f :: (P2 ++ Pf)) by reflexivity.
-        rewrite Hrun. apply req_bind'; [apply req_refl|]. intros st2 Est2.
-        assert (Hp2 : 0 <= p_pos st2).
-        { rewrite Hrm in Est2. destruct (rd f s q (p_ctx st1)) as [[v p']|] eqn:Er; [|discriminate]. cbn [bind fst snd] in Est2. injection Est2 as <-.
-          cbn [p_pos]. exact (Hnn _ _ _ _ _ Hq0 Er). }
-        refine (req_trans _ _ _ (IH _ (after_sub f stc) st2 _ _ _ _ Hcr Hoffs _ _ _ _ _ _ Hp2 Hstart _ E2 HF) _); unfold after_sub; cbn [g_pbits g_block g_off g_known]; rewrite ?Hcb.
-        * exact Hcp.
-        * constructor.
-        * exact I.
-        * intros Hne. now contradiction Hne.
-        * intros x Hx. destruct (f_off f) as [x0|] eqn:Eo; [|discriminate]. destruct (ty_size c (f_ty f)) as [n|] eqn:En; [|discriminate]. injection Hx as <-.
-          destruct (Hoff x0 eq_refl) as [H0 _]. pose proof (Hsz n eq_refl). rewrite (Hco x0 eq_refl). repeat split; try lia. intros Hne. now contradiction Hne.
-        * discriminate.
-        * cbn [bsize fold_right]. lia.
-        * unfold seq_blockS. cbn [seq_block bind fst snd]. rewrite set_pos_id. apply req_refl.
+          cbn [set_pos p_pos p_bb]. split; [exact (seq_block_end c fuel _ _ _ _ _ _ Hpos HB ltac:(lia) Eq)|]. now destruct (seq_block_pos _ _ _ _ _ Eq). }
+        destruct Hp1 as [Hp1 Hbb1].
+        (* the three decisions - generator, layout, bit buffer - agree *)
+        set (nuR := (bb_rem (p_bb st) =? 0) || negb (storage_eqb (bb_type (p_bb st)) (Some (p, al)))).
+        assert (Hagree : nuR = nuG /\ (nuG = true -> ls_brem lst = 0 \/ storage_eqb (Some (p, al)) (ls_btype lst) = false) /\
+                         (nuG = false -> g_pbits gst = true /\ ls_brem lst <> 0 /\ ls_btype lst = Some (p, al) /\ g_btype gst = Some (p, al) /\ g_block gst = [] /\
+                                          bb_rem (p_bb st) = g_brem gst /\ ls_brem lst = g_brem gst /\ forall x, ls_off lst = Some x -> ls_boff lst = Some (x - Z.of_nat sz))).
+        { unfold nuR, nuG. destruct (g_pbits gst) eqn:Epb; cbn [negb orb].
+          - destruct (Hi2 eq_refl) as [Hblk [Hlb [Hlt [Hrb [Hrt [bp [bal [bs [Hgt [Hbs Hbo']]]]]]]]]]. rewrite Hrb, Hrt.
+            split; [reflexivity|]. split.
+            + intros Hn. apply Bool.orb_true_iff in Hn as [Hn|Hn]; [left; apply Z.eqb_eq in Hn; lia|right]. rewrite Hlt, storage_eqb_sym. now apply Bool.negb_true_iff in Hn.
+            + intros Hn. apply Bool.orb_false_iff in Hn as [Hn1 Hn2]. apply Z.eqb_neq in Hn1. apply Bool.negb_false_iff in Hn2. apply storage_eqb_eq in Hn2.
+              rewrite Hn2 in Hgt. injection Hgt as <- <-. rewrite Hsz in Hbs. injection Hbs as <-. rewrite Hlt, Hn2. repeat split; try assumption; try reflexivity; lia.
+          - destruct (Hi1 eq_refl) as [Hlb Hbb]. rewrite Hbb. cbn [bb_rem bb_empty Z.eqb orb]. split; [reflexivity|]. split; [intros _; now left|discriminate]. }
+        destruct Hagree as [HnuR [Hnew Hcont']].
+        assert (Hstq : bit_storage (f_ty f) = Some (p, al)) by exact Hst.
+        (* reading the field, in both readers: the same bit-buffer read at the same position *)
+        assert (Hrm : forall q, q = (match f_off f with Some fo => start + fo | None => p_pos st1' end) ->
+                  read_member f st1' = (do x <- bb_read e s q (p_bb st) (Some (p, al)) nb; let '(v, bb', pos') := x in
+                                        Ok (mkPS pos' bb' ((f_name f, VInt v) :: p_vals st1') (p_sizes st1') ((f_name f, v) :: p_ctx st1')))).
+        { intros q ->. unfold read_member. now rewrite Hbo, Hstq, Hbb1. }
+        destruct nuG eqn:EnuG.
+        * (* ----- the field opens a storage unit ----- *)
+          destruct (lstep_bits_new lst f nb p al sz lst' (f_off f) Hb Hnz Hst Hsz (Hnew eq_refl) Hls) as [Hfo [Hfit ->]].
+          cbn [st2] in Estb. subst stb.
+          assert (Hrun : exists st3' q, st3 = st3' /\ g_block st3' = [] /\ g_pbits st3' = true /\ g_roll st3' = true /\ g_btype st3' = Some (p, al) /\ g_brem st3' = Z.of_nat sz * 8 - nb /\
+                     (forall x, ls_off lst = Some x -> g_off st3' = x) /\ (ls_off lst = None -> g_off st3' = g_off gst /\ g_known st3' = g_known gst) /\
+                     q = (match f_off f with Some fo => start + fo | None => p_pos st1' end) /\ 0 <= q /\ (g_known st3' = true -> q = start + g_off st3') /\
+                     forall rest, run_instrs c rd s start cal (ia ++ IBits f nb :: rest) st1' = do st2' <- read_member f st1'; run_instrs c rd s start cal rest st2').
+          { unfold align_to_field in Eal. cbn [andb app g_off g_known] in Eal. destruct (f_off f) as [o|] eqn:Eo.
+            - destruct (Hoff o (eq_sym Hfo)) as [H0 [Hgo Hkn]]. rewrite Hgo, Z.eqb_refl in Eal. cbn [negb orb] in Eal.
+              destruct (g_known gst) eqn:Ek; cbn [negb app] in Eal; injection Eal as <- <-.
+              + eexists. exists (start + o). split; [reflexivity|]. cbn [g_block g_pbits g_roll g_btype g_brem g_off g_known].
+                split; [reflexivity|]. split; [reflexivity|]. split; [reflexivity|]. split; [reflexivity|]. split; [reflexivity|].
+                split; [intros x Hx; rewrite <- Hfo in Hx; injection Hx as <-; first [exact Hgo|reflexivity]|]. split; [intros Hn; rewrite <- Hfo in Hn; discriminate|].
+                split; [reflexivity|]. split; [lia|]. split; [intros _; first [now rewrite Hgo|reflexivity]|].
+                intros rest. cbn [app run_instrs run_instr]. rewrite (Hrm (start + o) eq_refl), Hstq, Hbb1.
+                assert (Hq : p_pos st1' = start + o) by (rewrite Hp1, (Hknown eq_refl); lia). rewrite Hq.
+                fold e. destruct (bb_read e s (start + o) (p_bb st) (Some (p, al)) nb) as [[[v bb'] pos']|]; reflexivity.
+              + eexists. exists (start + o). split; [reflexivity|]. cbn [g_block g_pbits g_roll g_btype g_brem g_off g_known].
+                split; [reflexivity|]. split; [reflexivity|]. split; [reflexivity|]. split; [reflexivity|]. split; [reflexivity|].
+                split; [intros x Hx; rewrite <- Hfo in Hx; injection Hx as <-; reflexivity|]. split; [intros Hn; rewrite <- Hfo in Hn; discriminate|].
+                split; [reflexivity|]. split; [lia|]. split; [intros _; reflexivity|].
+                intros rest. cbn [app run_instrs run_instr bind p_pos p_bb p_vals p_sizes p_ctx]. rewrite (Hrm (start + o) eq_refl), Hstq, Hbb1.
+                fold e. destruct (bb_read e s (start + o) (p_bb st) (Some (p, al)) nb) as [[[v bb'] pos']|]; reflexivity.
+            - cbn [app] in Eal. injection Eal as <- <-. eexists. exists (p_pos st1'). split; [reflexivity|]. cbn [g_block g_pbits g_roll g_btype g_brem g_off g_known].
+              split; [reflexivity|]. split; [reflexivity|]. split; [reflexivity|]. split; [reflexivity|]. split; [reflexivity|].
+              split; [intros x Hx; rewrite <- Hfo in Hx; discriminate|]. split; [intros _; split; reflexivity|].
+              split; [reflexivity|]. split; [lia|]. split; [intros Hk; rewrite Hp1; apply Hknown; exact Hk|].
+              intros rest. cbn [app run_instrs run_instr]. rewrite (Hrm (p_pos st1') eq_refl), Hstq, Hbb1.
+              fold e. destruct (bb_read e s (p_pos st1') (p_bb st) (Some (p, al)) nb) as [[[v bb'] pos']|]; reflexivity. }
+          destruct Hrun as [st3' [q [-> [H3b [H3p [H3r [H3t [H3m [H3o [H3n [Hq [Hq0 [Hqk Hrun]]]]]]]]]]]]].
+          replace (ia ++ [IBits f nb] ++ P2 ++ Pf) with (ia ++ IBits f nb :: (P2 ++ Pf)) by reflexivity.
+          rewrite Hrun. apply req_bind'; [apply req_refl|]. intros st2' Est2. rewrite (Hrm q Hq) in Est2.
+          destruct (bb_read e s q (p_bb st) (Some (p, al)) nb) as [[[v bb'] pos']|] eqn:Ebr; [|discriminate]. cbn [bind] in Est2. injection Est2 as <-.
+          destruct (bb_read_shape q (p_bb st) p al nb v bb' pos' sz Hsz Hq0 Ebr) as [Sbt [Sbr Spos]]. fold nuR in Sbt, Sbr, Spos. rewrite HnuR in Sbt, Sbr, Spos.
+          rewrite H3r in E2.
+          refine (req_trans _ _ _ (IH _ _ _ _ _ _ _ Hcr Hlay _ _ Hstart _ E2 HF) _); cbn [g_pbits g_block g_off g_known g_roll g_btype g_brem p_pos p_bb]; rewrite ?H3b.
+          -- unfold inv. cbn [g_pbits g_block g_off g_known g_roll g_btype g_brem p_pos p_bb ls_off ls_brem ls_btype ls_boff]. rewrite ?H3b, ?H3p, ?H3t, ?H3m.
+             split; [constructor|]. split; [exact I|]. split; [intros Hne; now contradiction Hne|].
+             split. { intros x Hx. destruct (ls_off lst) as [o|] eqn:Eoff; [|discriminate]. injection Hx as <-. destruct (Hoff o eq_refl) as [H0 _]. rewrite (H3o o eq_refl). repeat split; try lia. intros Hne. now contradiction Hne. }
+             split. { intros Hk. cbn [bsize fold_right]. rewrite Spos, (Hqk Hk). lia. }
+             split; [reflexivity|]. split; [discriminate|]. intros _.
+             split; [reflexivity|]. split; [reflexivity|]. split; [reflexivity|]. split; [exact Sbr|]. split; [exact Sbt|].
+             exists p, al, sz. split; [reflexivity|]. split; [exact Hsz|]. intros x Hx. destruct (ls_off lst) as [o|]; [|discriminate]. injection Hx as <-. f_equal. lia.
+          -- rewrite Spos. lia.
+          -- cbn [bsize fold_right]. lia.
+          -- unfold seq_blockS. cbn [seq_block bind fst snd]. rewrite set_pos_id. apply req_refl.
+        * (* ----- the field continues the open unit ----- *)
+          destruct (Hcont' eq_refl) as [Epb [Hlb0 [Hlt [Hgt [Hblk [Hrb [Hlb Hbo']]]]]]].
+          destruct (lstep_bits_cont lst f nb p al sz lst' (f_off f) Hb Hnz Hst Hlb0 Hlt Hsz Hbo' Hls) as [Hfo [Hfit ->]].
+          cbn [st2] in Estb. subst stb.
+          unfold align_to_field in Eal. rewrite Hfo in Eal. cbn [andb app] in Eal. injection Eal as <- <-.
+          cbn [app g_roll]. rewrite Hblk in *. cbn [bsize fold_right] in Hp1. rewrite Z.add_0_r in Hp1.
+          assert (Hrun : forall rest, run_instrs c rd s start cal (IBits f nb :: rest) st1' = do st2' <- read_member f st1'; run_instrs c rd s start cal rest st2').
+          { intros rest. cbn [run_instrs run_instr]. rewrite (Hrm (p_pos st1')) by now rewrite Hfo. rewrite Hstq, Hbb1.
+            fold e. destruct (bb_read e s (p_pos st1') (p_bb st) (Some (p, al)) nb) as [[[v bb'] pos']|]; reflexivity. }
+          replace ([IBits f nb] ++ P2 ++ Pf) with (IBits f nb :: (P2 ++ Pf)) by reflexivity.
+          rewrite Hrun. apply req_bind'; [apply req_refl|]. intros st2' Est2. rewrite (Hrm (p_pos st1')) in Est2 by now rewrite Hfo.
+          destruct (bb_read e s (p_pos st1') (p_bb st) (Some (p, al)) nb) as [[[v bb'] pos']|] eqn:Ebr; [|discriminate]. cbn [bind] in Est2. injection Est2 as <-.
+          assert (Hq0 : 0 <= p_pos st1') by lia.
+          destruct (bb_read_shape (p_pos st1') (p_bb st) p al nb v bb' pos' sz Hsz Hq0 Ebr) as [Sbt [Sbr Spos]]. fold nuR in Sbt, Sbr, Spos. rewrite HnuR in Sbt, Sbr, Spos.
+          refine (req_trans _ _ _ (IH _ _ _ _ _ _ _ Hcr Hlay _ _ Hstart _ E2 HF) _); cbn [g_pbits g_block g_off g_known g_roll g_btype g_brem p_pos p_bb].
+          -- unfold inv. cbn [g_pbits g_block g_off g_known g_roll g_btype g_brem p_pos p_bb ls_off ls_brem ls_btype ls_boff].
+             split; [constructor|]. split; [exact I|]. split; [intros Hne; now contradiction Hne|].
+             split. { intros x Hx. destruct (Hoff x Hx) as [H0 [Hg _]]. repeat split; try assumption. intros Hne. now contradiction Hne. }
+             split. { intros Hk. cbn [bsize fold_right]. rewrite Spos, Hp1. pose proof (Hknown Hk) as Hk'. cbn [bsize fold_right] in Hk'. lia. }
+             split; [reflexivity|]. split; [discriminate|]. intros _.
+             split; [reflexivity|]. split; [lia|]. split; [now rewrite Hlt, Hgt|]. split; [rewrite Sbr; lia|].
+             destruct (Hi2 Epb) as [_ [_ [_ [_ [Hrt _]]]]]. split; [now rewrite Sbt|].
+             exists p, al, sz. split; [exact Hgt|]. split; [exact Hsz|]. exact Hbo'.
+          -- rewrite Spos. lia.
+          -- cbn [bsize fold_right]. lia.
+          -- unfold seq_blockS. cbn [seq_block bind fst snd]. rewrite set_pos_id. apply req_refl.
   Qed.
+
   (* the interpreted structure loop, member by member *)
-  Lemma struct_loop_seq : forall fs offs pos bb bb' vals sizes lctx, Forall (fun f => f_bits f = None) fs -> length offs = length fs ->
+  Lemma struct_loop_seq : forall fs offs pos bb vals sizes lctx, length offs = length fs ->
     struct_loop e false start (map (fun f => (meta_of c f, rd f)) fs) offs s pos bb vals sizes lctx =
-    do st <- seq_loop (set_offsets fs offs) (mkPS pos bb' vals sizes lctx); Ok (rev (p_vals st), rev (p_sizes st), p_pos st).
+    do st <- seq_loop (set_offsets fs offs) (mkPS pos bb vals sizes lctx); Ok (rev (p_vals st), rev (p_sizes st), p_pos st).
   Proof.
-    induction fs as [|f r IH]; intros offs pos bb bb' vals sizes lctx Hb Hlen.
+    induction fs as [|f r IH]; intros offs pos bb vals sizes lctx Hlen.
     - destruct offs; reflexivity.
-    - destruct offs as [|o ro]; [discriminate|]. inversion Hb as [|? ? Hf Hr]; subst. destruct f as [n a t b o0]. cbn [f_bits] in Hf. subst b.
-      cbn [map struct_loop set_offsets seq_loop meta_of fm_bits fm_name f_bits f_name f_ty]. unfold read_member. cbn [f_off f_name p_pos p_ctx p_bb p_vals p_sizes]. unfold rd. cbn [f_ty].
-      destruct (read_ty c fuel t s match o with Some fo => start + fo | None => pos end lctx) as [[v p]|]; cbn [bind fst snd]; [|reflexivity].
-      fold rd. apply IH; [exact Hr|]. cbn in Hlen. lia.
+    - destruct offs as [|o ro]; [discriminate|]. destruct f as [n a t b o0].
+      cbn [map struct_loop set_offsets seq_loop meta_of fm_bits fm_name fm_storage f_bits f_name f_ty]. unfold read_member, bits_on. cbn [f_off f_name f_bits f_ty p_pos p_ctx p_bb p_vals p_sizes].
+      assert (Hl : length ro = length r) by (cbn in Hlen; lia).
+      destruct b as [nb|].
+      + destruct (nb =? 0).
+        * unfold rd. cbn [f_ty]. destruct (read_ty c fuel t s match o with Some fo => start + fo | None => pos end lctx) as [[v p]|]; cbn [bind fst snd]; [|reflexivity]. fold rd. now apply IH.
+        * fold e. destruct (bb_read e s match o with Some fo => start + fo | None => pos end bb (bit_storage t) nb) as [[[v bb'] pos']|]; cbn [bind]; [|reflexivity]. now apply IH.
+      + unfold rd. cbn [f_ty]. destruct (read_ty c fuel t s match o with Some fo => start + fo | None => pos end lctx) as [[v p]|]; cbn [bind fst snd]; [|reflexivity]. fold rd. now apply IH.
   Qed.
 End Plan.
+
 
 (* ---------- E. the compiled reader of a structure is its interpreted reader ---------- *)
 Section Final.
@@ -928,12 +1202,16 @@ Section Final.
     induction fs as [|[n a t b o] r IH]; intros [|o' ro] H; try discriminate; [repeat split; reflexivity|]. cbn in H. destruct (IH ro ltac:(lia)) as [A [B [C D]]].
     cbn [set_offsets map f_name f_ty f_bits f_off]. now rewrite A, B, C, D.
   Qed.
-  Lemma offs_agree_length : forall fs off offs, offs_agree c off fs offs -> length offs = length fs.
-  Proof. induction fs as [|f r IH]; intros off [|o ro] H; cbn in H; try contradiction; [reflexivity|]. destruct H as [_ H]. cbn. now rewrite (IH _ _ H). Qed.
-  Lemma offs_agree_run : forall fs off offs, offs_agree c off fs offs -> offs_run c off (set_offsets fs offs).
+  Lemma layout_go_lay_run : forall fs lst offs lst', Forall (fun f => f_off f = None) fs -> layout_go c false fs lst = Ok (offs, lst') ->
+    lay_run c lst (set_offsets fs offs) /\ length offs = length fs.
   Proof.
-    induction fs as [|[n a t b o] r IH]; intros off [|o' ro] H; cbn in H; try contradiction; [exact I|]. destruct H as [-> H].
-    cbn [set_offsets offs_run f_off f_ty]. split; [reflexivity|]. apply IH. exact H.
+    induction fs as [|[n a t b o] r IH]; intros lst offs lst' Hno H; cbn [layout_go] in H.
+    - injection H as <- _. split; [exact I|reflexivity].
+    - inversion Hno as [|? ? Ho Hr]; subst. cbn [f_off] in Ho. subst o. cbn [f_off f_bits f_ty] in H.
+      destruct (layout_step false lst None b (bit_storage t) (ty_size c t) (field_align c (Fld n a t b None))) as [[lst1 o1]|] eqn:E; [|discriminate]. cbn [bind fst snd] in H.
+      destruct (layout_go c false r lst1) as [[offs' lst2]|] eqn:E2; [|discriminate]. cbn [bind fst snd] in H. injection H as <- <-.
+      destruct (IH _ _ _ Hr E2) as [Hl Hlen]. cbn [set_offsets lay_run length]. split; [|now rewrite Hlen].
+      exists lst1. split; [|exact Hl]. unfold lstep. cbn [f_bits f_ty f_off]. unfold field_align in *. cbn [f_ty] in *. exact E.
   Qed.
   Lemma cls_set_offsets : forall fs offs, length offs = length fs -> Forall (cls' c fuel) fs -> Forall (cls' c fuel) (set_offsets fs offs).
   Proof.
@@ -951,8 +1229,11 @@ Section Final.
     induction fs as [|f r IH]; intros st st' H; cbn [seq_loop] in H.
     - injection H as <-. now rewrite app_nil_r.
     - destruct (read_member c fuel s start f st) as [st1|] eqn:E; [|discriminate]. cbn [bind] in H. rewrite (IH _ _ H).
-      unfold read_member in E. destruct (read_ty c fuel (f_ty f) s _ (p_ctx st)) as [[v p]|]; [|discriminate]. cbn [bind] in E. injection E as <-.
-      cbn [p_vals rev map]. rewrite map_app. cbn [map fst]. now rewrite <- app_assoc.
+      unfold read_member in E. destruct (bits_on f).
+      + destruct (bb_read _ _ _ _ _ _) as [[[v bb'] pos']|]; [|discriminate]. cbn [bind] in E. injection E as <-.
+        cbn [p_vals rev map]. rewrite map_app. cbn [map fst]. now rewrite <- app_assoc.
+      + destruct (read_ty c fuel (f_ty f) s _ (p_ctx st)) as [[v p]|]; [|discriminate]. cbn [bind] in E. injection E as <-.
+        cbn [p_vals rev map]. rewrite map_app. cbn [map fst]. now rewrite <- app_assoc.
   Qed.
   Lemma lookup_in {A} : forall (l : list (string * A)) n v, NoDup (map fst l) -> In (n, v) l -> lookup n l = Some v.
   Proof.
@@ -972,7 +1253,7 @@ Section Final.
   Qed.
 
   (* C03 for the structures the generator handles by blocks of scalars and sub-readers: PACKED structures as the parser makes them (no set offsets,
-     no bit fields) whose members are scalars of any kind (packed and byte-sliced integers, floats, char, wchar, enums, pointers) or have a reader of
+     any) whose members are scalars of any kind (packed and byte-sliced integers, floats, char, wchar, enums, pointers) or have a reader of
      their own (nested structures and unions, arrays of them, multi-dimensional and dynamically sized arrays).  If the generator produces a plan, then
      running the generated statements gives exactly what the interpreted reader gives: the same object (values in declaration order, recorded
      sizes) and the same end position - or both raise. *)
@@ -984,23 +1265,24 @@ Section Final.
     intros Hcl Hnd Hbound Hplan s pos ctx Hpos. unfold read_compiled. unfold compile_plan in Hplan. cbn [read_ty].
     destruct (layout_struct c false fs) as [lay|] eqn:EL; [|discriminate]. cbn [bind] in Hplan |- *. rewrite Hplan. cbn [bind].
     assert (Hcl1 : Forall (cls' c fuel) fs) by (rewrite Forall_forall in *; intros f Hin; now destruct (Hcl f Hin)).
-    assert (Hbits : Forall (fun f => f_bits f = None) fs) by (rewrite Forall_forall in *; intros f Hin; now destruct (Hcl1 f Hin)).
-    assert (Hag : offs_agree c (Some 0) fs (l_offs lay)).
+    assert (Hno : Forall (fun f => f_off f = None) fs) by (rewrite Forall_forall in *; intros f Hin; now destruct (Hcl f Hin)).
+    assert (Hlr : lay_run c (mkLS (Some 0) 0 None (Some 0) 0) (set_offsets fs (l_offs lay)) /\ length (l_offs lay) = length fs).
     { unfold layout_struct in EL. destruct (layout_go c false fs _) as [[offs st']|] eqn:EG; [|discriminate]. cbn [bind fst snd] in EL. injection EL as <-. cbn [l_offs].
-      refine (layout_go_agree c fs _ _ _ _ EG). rewrite Forall_forall in *. intros f Hin. destruct (Hcl f Hin) as [Ho [Hb _]]. now split. }
-    pose proof (offs_agree_length _ _ _ Hag) as Hlen.
+      exact (layout_go_lay_run fs _ _ _ Hno EG). }
+    destruct Hlr as [Hlr Hlen].
     unfold plan_fields in Hplan. destruct (plan_go c false (set_offsets fs (l_offs lay)) _) as [[P gst']|] eqn:EP; [|discriminate]. cbn [bind fst snd] in Hplan.
     destruct (flush c false gst') as [[Pf gst'']|] eqn:EF; [|discriminate]. cbn [bind fst snd] in Hplan. injection Hplan as <-. rewrite app_nil_r.
     set (st0 := mkPS pos bb_empty [] [] []).
-    pose proof (plan_loop c fuel s pos (l_align lay) (set_offsets fs (l_offs lay)) (Some 0) (mkGS 0 [] false None 0 false true) st0 P gst' Pf gst''
-                 (cls_set_offsets _ _ Hlen Hcl1) (offs_agree_run _ _ _ Hag) eq_refl (Forall_nil _) I) as PL.
-    cbn [g_block g_off g_known p_pos st0] in PL.
-    specialize (PL ltac:(intros Hne; now contradiction Hne)).
-    specialize (PL ltac:(intros x Hx; injection Hx as <-; repeat split; try lia; intros Hne; now contradiction Hne)).
-    specialize (PL ltac:(intros _; cbn [bsize fold_right]; lia) Hpos Hpos).
+    assert (Hinv0 : inv c pos (mkGS 0 [] false None 0 false true) (mkLS (Some 0) 0 None (Some 0) 0) st0).
+    { unfold inv. cbn [g_block g_off g_known g_roll g_pbits g_brem g_btype ls_off ls_brem p_pos p_bb st0 hoff]. split; [constructor|]. split; [exact I|].
+      split; [intros Hne; now contradiction Hne|]. split; [intros x Hx; injection Hx as <-; repeat split; try lia; intros Hne; now contradiction Hne|].
+      split; [intros _; cbn [bsize fold_right]; lia|]. split; [reflexivity|]. split; [intros _; split; reflexivity|discriminate]. }
+    pose proof (plan_loop c fuel s pos (l_align lay) (set_offsets fs (l_offs lay)) _ _ st0 P gst' Pf gst''
+                 (cls_set_offsets _ _ Hlen Hcl1) Hlr Hinv0 Hpos Hpos) as PL.
+    cbn [g_block] in PL.
     specialize (PL ltac:(rewrite bsize_set_offsets by exact Hlen; cbn [bsize fold_right]; lia) EP EF).
     unfold seq_blockS in PL. cbn [seq_block bind fst snd] in PL. rewrite set_pos_id in PL.
-    rewrite (struct_loop_seq c fuel s pos fs (l_offs lay) pos bb_empty bb_empty [] [] [] Hbits Hlen). fold st0.
+    rewrite (struct_loop_seq c fuel s pos fs (l_offs lay) pos bb_empty [] [] [] Hlen). fold st0.
     destruct (run_instrs c _ s pos (l_align lay) (P ++ Pf) st0) as [st|er] eqn:ER; destruct (seq_loop c fuel s pos (set_offsets fs (l_offs lay)) st0) as [st'|er'] eqn:ES;
       cbn [req bind] in PL |- *; try contradiction; [|exact I]. subst st'.
     pose proof (seq_loop_names s pos _ _ _ ES) as Hn. cbn [st0 p_vals rev map app] in Hn. destruct (set_offsets_same fs (l_offs lay) Hlen) as [Hnm _]. rewrite Hnm in Hn.
